@@ -493,8 +493,20 @@ def deep_path(draw):
     return top
 
 
+def _same_ids(sp):
+    """two or three nodes of the tree get one and the same id (explicit ids, fragments loaded twice from one JSON text):
+    ids are no part of what the recommendations are about"""
+    allp = [x for _, x in treegen.spec_nodes(sp)]
+    from vf.runner import h64
+    h = h64(sp)
+    if len(allp) >= 3 and h % 3 == 0:
+        for j in (h // 3 % len(allp), h // 7 % len(allp), h // 11 % len(allp)):
+            allp[j]["i"] = "same-id"
+    return sp
+
+
 def strategy():
-    c = constructed()
+    c = constructed().map(_same_ids)
     mut = treegen.mutated(c, 1, 3, kinds=["drop", "dup", "swap", "rename-known", "content", "attr-bad", "attr-drop",
                                           "plant-misplaced", "clear-kids"]).map(lambda t: t[0])
     known_only = treegen.arb_spec(16).map(_known_names_only)
